@@ -3,7 +3,9 @@
 (* collection that belongs to its plan's family is printed as one JSON replay case   *)
 (*   cfgs   the configurations: lines [b, g, ms = <<unit, value>>...]                 *)
 (*   set    the settings                                                             *)
-(*   skip   "" | "fence" | "alpha": marked float hazards (the harness does not judge) *)
+(*   skip   "" | "fence": marked float hazard (the harness does not judge the case)  *)
+(*   fence  "" | "flat" | "interp": a value exactly on a fence; "flat" is exact in     *)
+(*          floats for integral values, the harness keeps them integral             *)
 (*   exp    what the library must report: unit order, group order, one table per      *)
 (*          unit with its rows in first-appearance order (cells: measured values,    *)
 (*          retained values, min, max, sum, n; comparison: error class, exact p,     *)
@@ -21,7 +23,7 @@ EmitWhen ==
        [] OTHER -> Done
 
 CaseJson(e) ==
-  [tag |-> "case", fam |-> plan.fam, cfgs |-> cfgs, set |-> set, skip |-> SkipReason(e), exp |-> e]
+  [tag |-> "case", fam |-> plan.fam, cfgs |-> cfgs, set |-> set, skip |-> SkipReason(e), fence |-> FenceHazard(e), exp |-> e]
 
 Emit == EmitWhen => \A e \in {Expected} : PrintT(ToJson(CaseJson(e)))
 
